@@ -9,6 +9,7 @@ Lines (tab separated):
   feed.genesis   flag <books>                       bandoracle / market InitGenesis: check flag, stored windows of any shape
   feed.configure height N acc script <band> <books> the REAL FetchPriceProposal handler ran; then the real band state / ALL stored windows
   feed.assetchange required <band> <assets>         an asset was added / updated with that oracle flag; then the band state and the new asset list
+  feed.noise     kind <band> stored <books>         a malformed / foreign packet or proposal through the real handlers: nothing may move
   feed.ack       id                                 acknowledgment of a price request (OnAcknowledgementPacket)
   feed.resp      id rates                           oracle response (OnRecvPacket)
   feed.band      height <band>                      real bandoracle.BeginBlocker, then the real band state
@@ -188,6 +189,15 @@ def handle (st : St) (seq : String) (f : List String) : St × List String :=
         ({ st with b := realB, assets := assets }, d)
       | none => (st, [s!"BAD\t{seq}\tassetchange band"])
     | _, _ => (st, [s!"BAD\t{seq}\tassetchange"])
+  | ["feed.noise", kind, bs, stored, bks] =>
+    -- a malformed / foreign packet or proposal went through the real handlers: nothing may move
+    match parseBand st.b bs, parseBooks bks with
+    | some realB, some realBk =>
+      let d := (if showBand st.b = showBand realB then [] else [s!"DIFF\t{seq}\tnoise {kind} moved the band state model={showBand st.b}\timpl={showBand realB}"]) ++
+        (if stored = "false" then [] else [s!"DIFF\t{seq}\tnoise {kind} stored a result"]) ++
+        (if showBooks st.bk = showBooks realBk then [] else [s!"DIFF\t{seq}\tnoise {kind} moved the windows"])
+      (st, d)
+    | _, _ => (st, [s!"BAD\t{seq}\tnoise"])
   | ["feed.ack", id] =>
     match parseInt? id with
     | some id => ({ st with b := st.b.ack id }, [])
